@@ -81,13 +81,26 @@ func hugeCases(tier string, yield func(Case) bool) {
 			}
 		}
 	}
+	// while another goroutine keeps switching GOMAXPROCS between 2 and 7
+	flips := []int{1<<14 + 1, 1<<16 + 1, 1<<17 - 12, 1<<18 + 1}
+	if tier == "thorough" {
+		flips = append(flips, 1<<13, 1<<15+12, 1<<16, 1<<17+1, 1<<19+1, 1<<20+1)
+	}
+	for _, n := range flips {
+		k++
+		c := hugeCase(hugeOrders[k%len(hugeOrders)], hugePatterns[k%3], n, 0, k)
+		c.Flip = true
+		if !yield(c) {
+			return
+		}
+	}
 }
 
 var specHuge = pbt.Register(&pbt.Spec[Case]{
 	Property: "C07", Name: "C07.huge",
 	Rule: "enumerated HUGE inputs: NewSorted/NewSortedOrdered over n values for n in {p-12, p-1, p, p+1, p+12 : p = 2^13, 2^14, 2^15, 2^16, 2^17} and 2^18+1 (thorough: 2^18-1..2^20+1) under runtime.GOMAXPROCS 1, 2, 3, 4, 5, 6, 7, 8, 12, 16 " +
 		"(quick: every (p, GOMAXPROCS) pair with two of the five sizes; thorough: all five, GOMAXPROCS 1..17, 24, 32, two orders each), value patterns mostly-distinct scattered / descending / scattered pairs (thorough: also ascending, 7 values, two values, all equal), 14 orders/element types in rotation; " +
-		"then a short history: Sweep, 24 scattered Adds, Sweep, 12 scattered RemoveAt, 12 scattered Removes (crossing p in both directions for the sizes within 12 of it), RemoveAt first/last/middle, out-of-range Get/RemoveAt, runtime.GC(), Add/Index/Contains/Len/Sweep. " + rule + ruleNT,
+		"then a short history: Sweep, 24 scattered Adds, Sweep, 12 scattered RemoveAt, 12 scattered Removes (crossing p in both directions for the sizes within 12 of it), RemoveAt first/last/middle, out-of-range Get/RemoveAt, runtime.GC(), Add/Index/Contains/Len/Sweep; four more cases (2^14+1, 2^16+1, 2^17-12, 2^18+1 values; thorough ten) run while another goroutine keeps switching runtime.GOMAXPROCS between 2 and 7. " + rule + ruleNT,
 	Enum: func(shard, shards int, tier string, yield func(Case) bool) {
 		i := 0
 		hugeCases(tier, func(c Case) bool {
@@ -131,13 +144,59 @@ func churnCases(tier string, yield func(Case) bool) {
 			return
 		}
 	}
+	stampCases(tier, yield)
+}
+
+// stampCases: two calls with the same argument separated by g calls of the same function with OTHER arguments, for g
+// around 2^16 (thorough: also 2^17), and by m mutating calls around 2^16. 40 of the 50 values (raw x -> x mod 50) are
+// stored; the calls in between walk over the values of the other parity (50 is even, the stride is 2), so the probed value
+// v is not looked at in between.
+func stampCases(tier string, yield func(Case) bool) {
+	pows := []int{1 << 16}
+	if tier == "thorough" {
+		pows = append(pows, 1<<17, 1<<15)
+	}
+	k := 0
+	for _, pw := range pows {
+		for d := -2; d <= 2; d++ {
+			k++
+			o := []string{"int", "str", "desc", "lex", "float", "named", "ifdesc", "u32"}[k%8]
+			g := pw + d // calls in between
+			v := 7 + 13*(k%40)
+			c := Case{Order: o, Vals: 50, Init: []int{}, Bulk: []Fill{{N: 40, A: 7, S: 13}}, Spare: k % 3}
+			for _, kind := range []int{opIndex, opContains, opGet, opLen} {
+				c.Ops = append(c.Ops, Op{K: kind, A: v}, Op{K: kind, A: v + 1, S: 2, R: g - 1})
+				if d%2 == 0 { // something moves v (or what sits at position v mod Len) in the meantime
+					c.Ops = append(c.Ops, Op{K: opAdd, A: 7 + 13*41}, Op{K: kind, A: v}, Op{K: opRemove, A: 7 + 13*41})
+				}
+				c.Ops = append(c.Ops, Op{K: kind, A: v}, Op{K: opSweep, A: v})
+			}
+			if !yield(c) {
+				return
+			}
+			// mutations in between: adds Adds of absent values, then pairs of [Add, RemoveAt/Remove]: adds + 2*pairs calls
+			for _, adds := range []int{1, 2} {
+				pairs := (g - adds + 1) / 2
+				c = Case{Order: o, Vals: 50, Init: []int{}, Bulk: []Fill{{N: 40, A: 7, S: 13}}, Spare: k % 3, Ops: []Op{
+					{K: opIndex, A: v}, {K: opContains, A: v}, {K: opGet, A: 3, B: 0}, {K: opGet, B: 7}, {K: opLen},
+					{K: opAdd, A: 7 + 13*42, S: 13, R: adds - 1}, {K: opPair, A: v + 1, B: pairs - 1},
+					{K: opIndex, A: v}, {K: opContains, A: v}, {K: opGet, A: 3, B: 0}, {K: opGet, B: 7}, {K: opLen}, {K: opRemove, A: v}, {K: opSweep, A: v},
+					{K: opPair, A: v + 1, B: pairs - 1}, {K: opAdd, A: v}, {K: opIndex, A: v}, {K: opRemoveAt, A: 0, B: 0}, {K: opSweep, A: v + 1}}}
+				if !yield(c) {
+					return
+				}
+			}
+		}
+	}
 }
 
 var specChurn = pbt.Register(&pbt.Spec[Case]{
 	Property: "C07", Name: "C07.churn",
 	Rule: "enumerated LONG histories on one small Sorted, for the orders int, strings, descending, weak, lexicographic, floats, zero-size (thorough: also ifweak, named, edge): " +
 		"(a) 22000 rounds (thorough 44000) of [3 Adds with advancing values, Index, 2 RemoveAt(0), RemoveAt(middle), Get, Contains, Remove of an absent value, Len, Add v, Remove v] on 8..12 values - more than 2^16 Adds, more than 2^16 removals and more than 2^17 calls on one object; " +
-		"(b) 2^16+41 (thorough 2^17+41) consecutive calls each of Index, Contains, Get and Len on 40 values with a mutating call in between. " + rule + ruleNT,
+		"(b) 2^16+41 (thorough 2^17+41) consecutive calls each of Index, Contains, Get and Len on 40 values with a mutating call in between; " +
+		"(c) for g = 2^16-2..2^16+2 (thorough also around 2^15 and 2^17), eight orders in rotation: F(v), then g calls of F with OTHER arguments (the values of the other parity), (for even g-2^16: Add of a smaller value, F(v), Remove of it,) F(v), Sweep - for F = Index, Contains, Get, Len in turn; " +
+		"(d) for the same g: Index/Contains/Get/Len, then g or g+1 mutating calls (1 or 2 Adds of absent values, then Add/RemoveAt and Add/Remove pairs of other values, every return value checked), then Index/Contains/Get/Len/Remove of v and a Sweep, once more the same number of pairs, Add v/Index v/RemoveAt(0)/Sweep. " + rule + ruleNT,
 	Enum: func(shard, shards int, tier string, yield func(Case) bool) {
 		i := 0
 		churnCases(tier, func(c Case) bool {
